@@ -151,6 +151,8 @@ def rules(M):
     # a slot inside a string literal of the template receives the matched source as text (documented): the result is a Constant
     R['name->str'] = (M.MName(ctx=ast.Load), lambda n: isinstance(n, ast.Name) and isinstance(n.ctx, ast.Load),
                       lambda n: ast.Constant(value=f'got {n.id} here', _tmpl=True), '"got __FST_ here"', False)
+    R['name->str2'] = (M.MName(ctx=ast.Load), lambda n: isinstance(n, ast.Name) and isinstance(n.ctx, ast.Load),
+                       lambda n: ast.Constant(value=f'<{n.id}|{n.id}> {n.id}', _tmpl=True), '"<__FST_|__FST_>" " __FST_"', False)
     # a plain-AST pattern carrying an expression-context INSTANCE: compared only when sub(..., ctx=True)
     R['name-x-ctx'] = (ast.Name(id='x', ctx=ast.Load()),
                        lambda n: isinstance(n, ast.Name) and n.id == 'x' and (not CTX[0] or isinstance(n.ctx, ast.Load)),
@@ -307,7 +309,7 @@ def run_case(fst, M, pi, rname, st, res):
     pat, pred, build, tmpl, whole = rules(M)[rname]
     cid = f'C18/p{pi}/{rname}/' + ','.join(f'{k}={v}' for k, v in st.items())
     rep = {'prog': pi, 'rule': rname, 'st': st}
-    params = {'rule': rname, **{k: str(v) for k, v in st.items()}}
+    params = {'rule': rname, **{k: str(v) for k, v in st.items()}, 'string_slot': str(rname in STRING_SLOT_RULES)}
     res.evals += 1
     res.transitions += 1
     tree = ast.parse(src)
@@ -365,7 +367,12 @@ def run_case(fst, M, pi, rname, st, res):
     bad = live_vs_parse(root, 'Module')
     if bad:
         res.fail(cid, 'C01-after-sub', f'src={src!r}\n{bad}', params, rep)
-        return
+        if rname not in STRING_SLOT_RULES:
+            return
+        cid += '/source'  # string slots: the stale Constant value is a known finding; the SOURCE is still judged against the reference
+        if O.try_parse(root.src) is None:
+            res.fail(cid, 'result-source-does-not-parse', f'src={src!r}\nresult={root.src!r}\nreference={want_src!r}', params, rep)
+            return
     got = O.dump(ast.parse(root.src))
     if got != O.dump(want):
         res.fail(cid, 'result-differs-from-reference', f'src={src!r}\nresult   ={root.src!r}\nreference={want_src!r}', params, rep)
@@ -433,7 +440,8 @@ def run_case(fst, M, pi, rname, st, res):
 RULE_NAMES = ['name->log', 'binop->f', 'binop-swap', 'call-unwrap', 'expr-identity', 'list-slice', 'dict-mid', 'if-swap', 'stmt-identity',
               'def->wrapper',
               'call-args-tail', 'call-_args-tail', 'call-_args-init', 'genexp->list', 'genexp->or', 'name->par', 'name-x-ctx', 'args-identity', 'name->str', 'if->two-stmts', 'seq->as', 'value->or-as',
-              'binop->g-tail', 'call->wrap-tail', 'list->lists']
+              'binop->g-tail', 'call->wrap-tail', 'list->lists', 'name->str2']
+STRING_SLOT_RULES = ('name->str', 'name->str2')
 
 
 def shards(tier):
